@@ -150,12 +150,14 @@ CORPUS = [
     _grid_case("uniform", (3, 2, 2), "F", False, (True, True, True), "CELLS"),
     _grid_case("esri", (3, 2), "C", True, None, "CELLS"),
     # malformed constructions
-    {"kind": "grid", "cls": "rect", "axes": [[fr(0), fr(2), fr(1)], [fr(0), fr(1)]], "order": "F", "rev": False, "loc": "CELLS"},
-    {"kind": "grid", "cls": "rect", "axes": [[fr(0), fr(1)], [fr(1), fr(1)]], "order": "C", "rev": True, "loc": "POINTS"},
+    {"kind": "grid", "cls": "rect", "axes": [[fr(0), fr(2), fr(1)], [fr(0), fr(1)]], "order": "F", "rev": False, "loc": "CELLS",
+     "malformed": True},
+    {"kind": "grid", "cls": "rect", "axes": [[fr(0), fr(1)], [fr(1), fr(1)]], "order": "C", "rev": True, "loc": "POINTS",
+     "malformed": True},
     {"kind": "grid", "cls": "uniform", "dims": [2, 3], "spacing": [fr(1)], "origin": [fr(0), fr(0)], "inc": None,
-     "order": "F", "rev": False, "loc": "CELLS"},
+     "order": "F", "rev": False, "loc": "CELLS", "malformed": True},
     {"kind": "grid", "cls": "uniform", "dims": [2, 3], "spacing": [fr(1), fr(1)], "origin": [fr(0), fr(0)], "inc": [True],
-     "order": "F", "rev": False, "loc": "CELLS"},
+     "order": "F", "rev": False, "loc": "CELLS", "malformed": True},
     {"kind": "grid", "cls": "uniform", "dims": [2, 3], "spacing": [fr(1), fr(2), fr(3)], "origin": [fr(0), fr(0), fr(1)],
      "inc": None, "order": "C", "rev": True, "loc": "POINTS"},
     # more than three axes are truncated
@@ -232,7 +234,8 @@ def observe(g):
     nat = [
         nrow(g.dims), nrow(g.data_shape),
         nrow([g.data_size, g.point_count, g.cell_count, g.mesh_dim, g.dim]),
-        nrow([1 if b else 0 for b in g.axes_increase]),
+        # the direction flag of a length-1 axis has no meaning: reported as increasing
+        nrow([1 if (b or n == 1) else 0 for b, n in zip(g.axes_increase, g.dims)]),
         nmat(g.cells), nrow(g.cell_types), nrow(g.cells_connectivity),
         nmat(u.cells), nrow(u.cell_types),
         nrow(list(u.data_shape) + [u.point_count, u.cell_count, u.dim]),
@@ -252,7 +255,10 @@ def run_impl(case):
     except ValueError:
         return {"err": "ValueError"}
     if case["kind"] == "grid":
-        return observe(g)
+        try:
+            return observe(g)
+        except Exception as e:  # noqa: a public property of a constructed grid raised
+            return {"err": "observe:" + type(e).__name__}
     objs = [g]
     locs = [case["loc"]]
     res = []
@@ -352,6 +358,9 @@ def _mres(r):
 
 
 def coq_obs(case, obs):
+    if obs.get("err", "ValueError") != "ValueError" or "harness_error" in obs:
+        # nothing the model can produce: forces a mismatch
+        return C("OMemo", NONE) if case["kind"] == "grid" else C("OGrid", NONE)
     if case["kind"] == "grid":
         if "err" in obs:
             return C("OGrid", NONE)
@@ -434,9 +443,11 @@ def _monitor_grid(case, obs):
     return None
 
 
-def monitor(case, obs):
+def _monitor(case, obs):
     if "err" in obs:
-        return None
+        if case.get("malformed") and obs["err"] == "ValueError":
+            return None
+        return f"a well-formed grid configuration raised {obs['err']}"
     if case["kind"] == "grid":
         return _monitor_grid(case, obs)
     for i, (op, r) in enumerate(zip(case["ops"], obs["res"])):
@@ -445,6 +456,13 @@ def monitor(case, obs):
         if r["r"] == "set" and r["ok"] and r["now"] != op[2]:
             return f"op {i} {op}: data_location is {r['now']} after a successful set"
     return None
+
+
+def monitor(case, obs):
+    try:
+        return _monitor(case, obs)
+    except (IndexError, KeyError, TypeError, ValueError) as e:  # observation too inconsistent to evaluate
+        return f"public grid properties are mutually inconsistent ({type(e).__name__} while evaluating the predicate)"
 
 
 def nontrivial(case, obs):
